@@ -182,16 +182,24 @@ class _SessionEntry:
     expires_at: float
     principal_key: str
     lock: threading.RLock
+    # Set (under ``lock``) when the close hook is about to run. A request that
+    # looked the entry up and then waited for ``lock`` re-checks this flag
+    # before it dispatches.
+    closed: bool = False
 
 
 class _SessionRegistry:
     """Per-worker in-process dict of live sessions.
 
     The registry's own lock protects the dict's identity (insertion,
-    deletion, iteration); per-entry RLocks (held only during dispatch)
-    serialize concurrent calls on the same session. The registry lock
-    is never held during dispatch — it's a fast-path mutex for
-    metadata, not a serialization point.
+    deletion, iteration); per-entry RLocks (held during dispatch and
+    while the close hook runs) serialize concurrent calls on the same
+    session and order them against its teardown. The registry lock is
+    never held during dispatch or while waiting for an entry lock — it's
+    a fast-path mutex for metadata, not a serialization point.
+
+    Lock order: entry lock, then registry lock. Code that holds the
+    registry lock only ever *tries* an entry lock (``drain_expired``).
     """
 
     def __init__(self, default_ttl: float) -> None:
@@ -234,27 +242,51 @@ class _SessionRegistry:
             ServerDrainingError: If the server is in drain mode.
 
         """
+        session_id, entry = self.open_entry(state, ttl, principal_key)
+        return session_id, entry.expires_at
+
+    def open_entry(
+        self,
+        state: object,
+        ttl: float | None,
+        principal_key: str,
+        *,
+        hold_lock: bool = False,
+    ) -> tuple[bytes, _SessionEntry]:
+        """Register a session and return ``(session_id, entry)``.
+
+        With ``hold_lock=True`` the calling thread owns the new entry's lock
+        when the entry becomes visible, so the request that opens a session
+        dispatches against it under the same exclusion as a resumed one.
+        The caller releases the lock.
+
+        Raises:
+            ServerDrainingError: If the server is in drain mode.
+
+        """
         if self._draining:
             raise ServerDrainingError("server is draining — new sessions are rejected")
         effective_ttl = self._default_ttl if ttl is None else ttl
-        expires_at = time.time() + effective_ttl
         entry = _SessionEntry(
             state=state,
-            expires_at=expires_at,
+            expires_at=time.time() + effective_ttl,
             principal_key=principal_key,
             lock=threading.RLock(),
         )
+        if hold_lock:
+            entry.lock.acquire()
         session_id = secrets.token_bytes(_SESSION_ID_LEN)
         with self._lock:
             self._entries[session_id] = entry
-        return session_id, expires_at
+        return session_id, entry
 
     def get(self, session_id: bytes, principal_key: str) -> _SessionEntry | None:
         """Look up an entry. Returns ``None`` on miss, expiry, or principal mismatch.
 
         Expired entries are evicted in-line (and their ``state.close()`` is
-        invoked) so the caller's miss is observationally identical whether
-        the entry never existed or aged out between the reaper ticks.
+        invoked, after any in-flight call on the session has finished) so
+        the caller's miss is observationally identical whether the entry
+        never existed or aged out between the reaper ticks.
 
         Note that AAD already binds the token to its principal at the
         crypto layer, so this principal_key check is defense-in-depth: a
@@ -265,12 +297,14 @@ class _SessionRegistry:
             entry = self._entries.get(session_id)
             if entry is None:
                 return None
-            if entry.expires_at < now:
+            expired = entry.expires_at < now
+            if expired:
                 del self._entries[session_id]
-                self._close_state_suppressed(entry.state)
+            elif entry.principal_key != principal_key:
                 return None
-            if entry.principal_key != principal_key:
-                return None
+        if expired:
+            self._retire(entry)
+            return None
         return entry
 
     def close(self, session_id: bytes) -> bool:
@@ -279,18 +313,29 @@ class _SessionRegistry:
             entry = self._entries.pop(session_id, None)
         if entry is None:
             return False
-        self._close_state_suppressed(entry.state)
+        self._retire(entry)
         return True
 
     def drain_expired(self, now: float | None = None) -> int:
-        """Evict any sessions past their TTL. Returns the eviction count."""
+        """Evict any sessions past their TTL. Returns the eviction count.
+
+        A session with a call in flight is left for a later sweep: the
+        reaper never closes a state under a running method and never waits
+        for one.
+        """
         if now is None:
             now = time.time()
+        expired: list[_SessionEntry] = []
         with self._lock:
-            expired_sids = [sid for sid, e in self._entries.items() if e.expires_at < now]
-            expired = [self._entries.pop(sid) for sid in expired_sids]
+            for sid, entry in list(self._entries.items()):
+                if entry.expires_at < now and entry.lock.acquire(blocking=False):
+                    del self._entries[sid]
+                    expired.append(entry)
         for entry in expired:
-            self._close_state_suppressed(entry.state)
+            try:
+                self._retire(entry)
+            finally:
+                entry.lock.release()
         return len(expired)
 
     def shutdown(self) -> None:
@@ -299,12 +344,15 @@ class _SessionRegistry:
         Called on WSGI app teardown so handle-bearing values get released
         cleanly. Does NOT fire on SIGKILL / process crash — see
         ``docs/sticky-sessions-spec.md`` for the documented crash contract.
+
+        Waits for a call that is in flight on a session before closing its
+        state, so call this after the grace period.
         """
         with self._lock:
             entries = list(self._entries.values())
             self._entries.clear()
         for entry in entries:
-            self._close_state_suppressed(entry.state)
+            self._retire(entry)
 
     def __len__(self) -> int:
         with self._lock:
@@ -313,6 +361,22 @@ class _SessionRegistry:
     def __iter__(self) -> Iterator[bytes]:
         with self._lock:
             return iter(list(self._entries.keys()))
+
+    @classmethod
+    def _retire(cls, entry: _SessionEntry) -> None:
+        """Run the close hook of an entry that has left the dict — once, and not under a running call.
+
+        Taking the entry lock waits for a call in flight on the session
+        (the lock is re-entrant, so the dispatching thread's own
+        ``ctx.close_session()`` passes). ``closed`` turns away requests that
+        looked the entry up before it was removed and are still waiting for
+        the lock.
+        """
+        with entry.lock:
+            if entry.closed:
+                return
+            entry.closed = True
+            cls._close_state_suppressed(entry.state)
 
     @staticmethod
     def _close_state_suppressed(state: object) -> None:
@@ -530,6 +594,17 @@ class _StickyMiddleware:
                     raise SessionLostError(
                         "session not found, expired, or principal mismatch",
                     )
+                # Acquire the per-session RLock for the duration of dispatch.
+                # Released in process_response. Same-session concurrent calls
+                # serialize here; different-session calls run in parallel.
+                entry.lock.acquire()
+                if entry.closed:
+                    # Closed (DELETE, close_session, eviction, shutdown) while
+                    # this request was between the lookup and the lock.
+                    entry.lock.release()
+                    raise SessionLostError(
+                        "session not found, expired, or principal mismatch",
+                    )
             except SessionLostError as exc:
                 # Convert middleware-time SessionLostError into the same
                 # Arrow EXCEPTION-batch response shape that in-dispatch errors
@@ -539,10 +614,6 @@ class _StickyMiddleware:
                 _set_error_response(resp, exc, status_code=HTTPStatus.INTERNAL_SERVER_ERROR)
                 resp.complete = True
                 return
-            # Acquire the per-session RLock for the duration of dispatch.
-            # Released in process_response. Same-session concurrent calls
-            # serialize here; different-session calls run in parallel.
-            entry.lock.acquire()
             req.context.sticky_entry = entry
             req.context.sticky_entry_lock_acquired = True
             session_id_hex = session_id.hex()
@@ -584,7 +655,13 @@ class _StickyMiddleware:
         ttl: float | None,
     ) -> str:
         """Register *state* in the registry and seal a token bound to the principal."""
-        session_id, expires_at = self._registry.open(state, ttl, principal_key)
+        # The opening request holds the new entry's lock for the rest of its
+        # dispatch, exactly like a resumed one (released in process_response
+        # or by close_session).
+        session_id, entry = self._registry.open_entry(state, ttl, principal_key, hold_lock=True)
+        req.context.sticky_entry = entry
+        req.context.sticky_entry_lock_acquired = True
+        expires_at = entry.expires_at
         auth, _ = _get_auth_and_metadata()
         aad = _compute_aad(auth)
         token = _seal_session_token(
@@ -617,14 +694,16 @@ class _StickyMiddleware:
             session_id = bytes.fromhex(sc.session_id)
         except ValueError:
             return False
-        # Release the per-session RLock before removal so process_response's
-        # release doesn't double-unlock.
+        # Remove the entry and run the close hook while still holding the
+        # per-session RLock, so a request waiting on it cannot dispatch
+        # against a session that is being torn down; then release it here so
+        # process_response's release doesn't double-unlock.
+        hit = self._registry.close(session_id)
         entry = getattr(req.context, "sticky_entry", None)
         if entry is not None and getattr(req.context, "sticky_entry_lock_acquired", False):
             with contextlib.suppress(RuntimeError):
                 entry.lock.release()
             req.context.sticky_entry_lock_acquired = False
-        hit = self._registry.close(session_id)
         # Clear the contextvar so subsequent ctx.session reads return None.
         sc_token = getattr(req.context, "sticky_session_token", None)
         if sc_token is not None:
@@ -737,7 +816,11 @@ class _SessionResource:
         # call on this session — matches the contract documented for
         # concurrent dispatch.
         with entry.lock:
-            self._registry.close(session_id)
+            hit = self._registry.close(session_id)
+        if not hit:
+            # Closed by someone else while we waited for the lock.
+            resp.status = HTTPStatus.OK
+            return
         resp.set_header(SESSION_CLOSE_HEADER, "true")
         resp.status = HTTPStatus.NO_CONTENT
 
